@@ -573,7 +573,7 @@ Proof.
   destruct (decode_loop o (S (length s)) s tm []) as [items| |]; auto.
   destruct H as (st & h' & out & E & HF & HK); try lia; [apply keeps_refl | constructor |].
   exists st, h', out. split; [|auto]. unfold imp_newickrd_Reader. cbv zeta.
-  change (go_while fuel _ _ ?x) with (go_while fuel (fun _ => Ret true) (nr_body fuel) x).
+  timeout 120 (change (go_while fuel _ _ ?x) with (go_while fuel (fun _ => Ret true) (nr_body fuel) x)).
   match goal with |- after ?m ?f = _ =>
     assert (E' : forall m' : res nr_state nr_result, m' = Ret (st, (h', out)) -> after m' f = Ret (st, (h', out)))
       by (intros m' ->; reflexivity) end.
